@@ -332,28 +332,12 @@ def de_rules(ctx, flavours):
                     why.append('endpoint %d of connect does not come from a container lookup' % ai)
                     continue
                 gbi = gs[0][3]
-                # find the branch on the lookup outcome: Try::branch switch (Continue/Break) or a match on the Option
-                dom_ok = False
-                for bi in sorted(cfg.reach):
-                    tt = vs['blocks'][bi]['term']
-                    if tt['k'] != 'switch':
-                        continue
-                    term = pv.of_operand(tt['op'])
-                    if not (isinstance(term, tuple) and term[0] == 'discr'):
-                        continue
-                    inner = [c for c in term_calls(term[1]) if c[1] == fl + '::Graph::get' and c[3] == gbi] if isinstance(term[1], tuple) else []
-                    if not inner and not (isinstance(term[1], tuple) and term[1][0] == 'call' and term[1][3] == gbi):
-                        continue
-                    is_try = any(c[1].endswith('Try>::branch') for c in term_calls(term[1])) if isinstance(term[1], tuple) else False
-                    good_v = 0 if is_try else 1   # ControlFlow::Continue = 0 ; Option::Some = 1
-                    goods = [tg for v, tg in tt['targets'] if v == good_v]
-                    bads = [tg for v, tg in tt['targets'] if v != good_v] + ([tt['otherwise']] if vs['blocks'][tt['otherwise']]['term']['k'] != 'unreachable' else [])
-                    if goods and cfg.edge_dominates(bi, goods[0], cbi):
-                        dom_ok = True
-                        for bt in bads:
-                            if cfg.path_exists(bt, cbi):
-                                why.append('a failed lookup of endpoint %d can still reach connect' % ai)
-                            # the failing arm returns an Err built by de::Error::custom
+                # the branch on the lookup outcome: `?` (possibly behind ok_or_else / map_err), a match / let-else on the Option, is_some ..
+                from .core import outcome_edges
+                ge, be = outcome_edges(F, vs, gbi)
+                dom_ok = ge is not None and cfg.edge_dominates(ge[0], ge[1], cbi)
+                if dom_ok and be is not None and cfg.path_exists(be[1], cbi):
+                    why.append('a failed lookup of endpoint %d can still reach connect' % ai)
                 if not dom_ok:
                     why.append('connect is not dominated by the success outcome of the lookup of endpoint %d' % ai)
         # each lookup's failure produces a custom error
@@ -405,9 +389,10 @@ def de_rules(ctx, flavours):
             if t['res'] not in allowed and t['res'] in F.bodies and not t['res'].startswith(vs['q']):
                 why.append('reader calls ' + t['res'])
         ret_ok = False
+        ret_ls = {0} | {r['ret'] for r in vs.get('inl_regions', [])}    # results of absorbed helpers are the reader's result
         for bi, bb in enumerate(vs['blocks']):
             for s in bb['stmts']:
-                if s['k'] == 'assign' and s['dst']['l'] == 0 and s['rv']['k'] == 'aggr' and s['rv']['ak'].endswith('Result::Ok'):
+                if s['k'] == 'assign' and s['dst']['l'] in ret_ls and not s['dst']['p'] and s['rv']['k'] == 'aggr' and s['rv']['ak'].endswith('Result::Ok'):
                     g = strip_payload(pv.of_operand(s['rv']['ops'][0]))
                     ret_ok = isinstance(g, tuple) and g[0] == 'call' and g[1] == fl + '::Graph::new'
         if not ret_ok:
@@ -434,6 +419,29 @@ def de_rules(ctx, flavours):
         if lists != 2 or len(nel) != 2:
             why.append('%d loops over %d document lists (expected 2 / 2)' % (lists, len(nel)))
         out.append(Obl('DE4', vs['q'], vs['span'], 'a missing element leaves the list empty; both lists are walked by plain for-loops', not why, '; '.join(why) if why else 'ok'))
+        # DE5 (must-pass-through): the reader answers Ok only after it has walked both document lists to their end -- no shortcut
+        # returns a graph while edge records are still unexamined
+        why = []
+        from .core import outcome_edges
+        oks = [bi for bi, bb in enumerate(vs['blocks']) if not bb['cleanup'] and bi in cfg.reach and
+               any(s_['k'] == 'assign' and s_['dst']['l'] in ret_ls and not s_['dst']['p'] and s_['rv']['k'] == 'aggr' and s_['rv']['ak'].endswith('Result::Ok') for s_ in bb['stmts'])]
+        nlist = 0
+        for bi, l in RL.items():
+            src_raw = pv.of_operand(l['t']['args'][0])
+            if not term_mentions(src_raw, lambda z: isinstance(z, tuple) and z and z[0] == 'call' and z[1] == 'serde::de::SeqAccess::next_element'):
+                continue
+            nlist += 1
+            some_e, none_e = outcome_edges(F, vs, bi)
+            if none_e is None:
+                why.append('cannot find the exhausted exit of the loop at %s' % l['t']['sp'])
+                continue
+            for ob in oks:
+                if not cfg.edge_dominates(none_e[0], none_e[1], ob):
+                    osp = next((s_['sp'] for s_ in vs['blocks'][ob]['stmts'] if s_['k'] == 'assign' and s_['rv']['k'] == 'aggr' and s_['rv']['ak'].endswith('Result::Ok')), '?')
+                    why.append('Ok(..) at %s can be returned without walking the document list iterated at %s to its end' % (osp, l['t']['sp']))
+        if not oks:
+            why.append('no Ok(..) return found')
+        out.append(Obl('DE5', vs['q'], vs['span'], 'Ok is returned only after both document lists were walked to their end (%d lists, %d Ok sites)' % (nlist, len(oks)), not why, '; '.join(why) if why else 'ok'))
     return out
 
 
@@ -451,6 +459,9 @@ def _exit_is_error(F, b, y):
         t = b['blocks'][x]['term']
         if t['k'] == 'call' and t['callee'].endswith('FromResidual::from_residual'):
             hit = True
+            continue
+        if any(s_['k'] == 'assign' and s_['dst'] == {'l': 0, 'p': []} and s_['rv']['k'] == 'aggr' and s_['rv']['ak'].endswith('Result::Err') for s_ in b['blocks'][x]['stmts']):
+            hit = True       # explicit `return Err(..)`
             continue
         if t['k'] == 'return':
             return False
